@@ -36,6 +36,14 @@ fn gen_helper_prog(rng: &mut Rng, allow_local: bool) -> Plan {
         }
         let unreg: Vec<u32> = IDS.iter().copied().filter(|i| !helpers.iter().any(|(h, _)| h == i)).collect();
         let depth = if allow_local { rng.range(0, 8) as usize } else { 0 };
+        let calc = match rng.below(8) {
+            0 => crate::genp::CalcSpec::Const(0),
+            1 => crate::genp::CalcSpec::Const(8),
+            2 => crate::genp::CalcSpec::Const(16),
+            3 => crate::genp::CalcSpec::Table(rng.below(16) as u16),
+            _ => crate::genp::CalcSpec::None,
+        };
+        let small_frames = matches!(calc, crate::genp::CalcSpec::Const(_));
         let ncalls = rng.range(1, 20) as usize;
         let use_unreg = rng.chance(1, 6) && !unreg.is_empty();
         let unreg_reached = rng.chance(1, 2);
@@ -61,7 +69,8 @@ fn gen_helper_prog(rng: &mut Rng, allow_local: bool) -> Plan {
             b.lddw(7, t7);
             b.lddw(8, t8);
             b.lddw(9, t9);
-            let slot_ok = lvl < 2; // default frames: 256 bytes per level
+            // default / table frames: room only at the first two levels; tiny constant frames: everywhere
+            let slot_ok = lvl < 2 || small_frames;
             if slot_ok {
                 b.i(STDW, 10, 0, -8, 0x7e57 + lvl as i32);
             }
@@ -127,6 +136,7 @@ fn gen_helper_prog(rng: &mut Rng, allow_local: bool) -> Plan {
             c.pkt = rng.bytes(16);
         }
         c.helpers = helpers;
+        c.calc = calc;
         return Plan { case: c, has_unregistered, depth };
     }
 }
